@@ -752,7 +752,16 @@ func optZ(has, isvar bool, v int64) string {
 func (c *ctc) coq(idx int, gom, gor bool) string {
 	k := map[string]string{"slice": "KSlice", "array": "(KArray 3)", "ptrarray": "(KPtrArray 3)", "conststring": "(KConstString 3)", "string": "KString"}[c.Kind]
 	if c.Slice {
-		return fmt.Sprintf("CCt %d (CTSlice %s %s %s %s %s %s)", idx, k, optZ(c.HasLo, c.VarLo, c.LoV), optZ(c.HasHi, c.VarHi, c.HiV), optZ(c.HasMx, c.VarMx, c.MxV), vh.CoqBool(gom), vh.CoqBool(gor))
+		// model encoding: None = a variable bound; an absent bound is the constant it stands for (lo: 0, hi: the length
+		// of an array / pointer to array / constant string), None when it has no compile-time value (see coq/C08/Model.v)
+		lo, hi := optZ(c.HasLo, c.VarLo, c.LoV), optZ(c.HasHi, c.VarHi, c.HiV)
+		if !c.HasLo {
+			lo = "(Some " + z(0) + ")"
+		}
+		if !c.HasHi && (c.Kind == "array" || c.Kind == "ptrarray" || c.Kind == "conststring") {
+			hi = "(Some " + z(c.N) + ")"
+		}
+		return fmt.Sprintf("CCt %d (CTSlice %s %s %s %s %s %s)", idx, k, lo, hi, optZ(c.HasMx, c.VarMx, c.MxV), vh.CoqBool(gom), vh.CoqBool(gor))
 	}
 	return fmt.Sprintf("CCt %d (CTIndex %s %s %s %s)", idx, k, optZ(true, c.VarLo, c.LoV), vh.CoqBool(gom), vh.CoqBool(gor))
 }
@@ -769,10 +778,17 @@ func main() {
 		"T random in int/int8/int64/uint16/uint8/float64/string, every index and bound drawn around 0, len-1, len, cap (+-1) and passed through a compiled identity function (non constant); "+
 		"extra: 7 templates over nested structs/arrays/slices/maps/pointers with keyed, positional, nested and elided composite literals, &T{}, new, nil dereference, nil-map write, overlapping copy; "+
 		"ct: indexing/slicing of slice/array/pointer-to-array/constant string/string with constant or variable operands around the length; "+
+		"fresh: one source occurrence of an allocating expression (element-less/keyed/positional/nested/elided composite literals of struct, array, slice, map type with and without &, new, make, address of a local, slice of a literal; every site of the table in fresh.go at least twice per run) "+
+		"evaluated 2..4 times in one of 23 contexts (loop, range, goto loop, function/closure/method called repeatedly, recursion; result defined, assigned, stored in array/map/field/channel, passed, boxed, returned), all results kept alive, "+
+		"then written through one at a time and all read after every write, pointer/channel identities compared; "+
 		"a run case is non-trivial when it executed >= 3 operations of which >= 1 slicing/append/copy/map operation; distinct by SHA-256 of the source")
 	nRun, nExtra, nCt, perShard := 200, 80, 120, 100
+	nFresh := 2 * ((len(fsites) + 2) / 3) // 3 sites per program: every site is used twice
 	if a.Thorough() {
-		nRun, nExtra, nCt, perShard = 6000, 1500, 2500, 1500
+		// the compiled-Go oracle is one package per program: 6000/1500/2500 programs took 55 min to build on the loaded
+		// machine (0.33 s per package); 10x the quick tier stays near 20 min there (~3 min on an idle one)
+		nRun, nExtra, nCt, perShard = 2000, 800, 1200, 500
+		nFresh = 500 // (t-b, thorough-tier sizing) every program is one more oracle package: keep the total near 4500
 	}
 	if a.N > 0 {
 		nRun = a.N
@@ -811,7 +827,7 @@ func main() {
 			p.Kind = "extra" // replayed for the direct oracle
 		}
 		progs = []*prog{&p}
-		nRun, nExtra, nCt = 0, 0, 0
+		nRun, nExtra, nCt, nFresh = 0, 0, 0, 0
 	}
 	run := newRunner()
 	copyOK := vh.Catch(func() { run.ir.Eval("func Canary1() int { a := []int{1}; return copy(a, a) }") }) == nil
@@ -838,6 +854,15 @@ func main() {
 	}
 	for i := 0; i < nCt; i++ {
 		progs = append(progs, genCt(rng.Fork(), len(progs)))
+	}
+	// allocation-site freshness (fresh.go); own PRNG stream so that the streams above keep their seeds
+	frng := vh.NewRng(a.Seed*7919 + 8)
+	for i := 0; i < nFresh; i++ {
+		p, feats := genFresh(frng.Fork(), len(progs), int(a.Seed%uint64(len(fsites)))+3*i, 3)
+		progs = append(progs, p)
+		for _, f := range feats {
+			rep.Dist(f)
+		}
 	}
 	// corpus programs keep their own function name: re-point Idx-based name
 	for _, p := range progs {
@@ -866,7 +891,7 @@ func main() {
 		return
 	}
 	cw := vh.NewCases(a, "From Coq Require Import List ZArith.\nFrom Verif Require Import C08.Model.\nImport ListNotations.\nOpen Scope Z_scope.", "case", "mismatches", perShard)
-	wd := vh.NewWatchdog(rep, 30*time.Second)
+	wd := vh.NewWatchdog(rep, 120*time.Second) // generous: load average on the shared machine reaches 100+
 	for _, p := range progs {
 		wd.Beat(p)
 		key := func(what string) string {
